@@ -510,7 +510,7 @@ func readerField(c *Ctx, rule string, m *bits.Machine, fname, field string, patt
 		specs = append(specs, sp)
 	}
 	n := 0
-	for _, st := range m.Stores {
+	for _, st := range m.AllStores() {
 		if st.Key != "recv."+field {
 			continue
 		}
